@@ -21,7 +21,7 @@ func init() {
 			Rule: "stateless exploration of ALL interleavings (no preemption bound; with two commands: up to 2 (quick) / 3 (thorough) preemptions) of the real runner code (runner.go / command_storer.go rewritten so that every go statement, channel send, select and time.Sleep is a scheduling point of a cooperative scheduler; virtual clock) for scripts L0 <<c1 7 true>> <<set $k += 1>> L1 <<c2>> <<set $k += 1>> L2 with one or two commands; " +
 				"each command gets a handler shape from {raw AddCommand with a channel already holding nil / an error; raw with the channel completed later by a completer thread (send nil, send error, close; buffered, and unbuffered with the sender parked in its send until a poll takes the value); converted func(..), func(..) error (nil / error), func(..) <-chan error, func(..) chan error; built-in wait 0 / 0.5 / 1 / 1.5; unregistered name}, asynchronous handlers ungated or gated (a gate that only the host opens after p in 0..2 polls); " +
 				"the host thread performs up to 8 Next calls and, for wait, advances the virtual clock by steps from {n/2, n/2-1ns, 1ns}; oracle per execution: no Next ever blocks (host stuck inside the API with no enabled thread), no panic; the results follow L0 W* [E]? L1(k=1) W* [E]? L2(k=2) end with W = ErrWaitingForCommandCompletion exactly while completion cannot have been reported, E exactly once iff the command reports an error, " +
-				"no W once completion has been reported and every other thread is quiet; every executed command statement invokes its handler exactly once with (7, true); wait n never completes at a virtual time below n seconds after it started; plus a free-running -race pass over the same shapes; " +
+				"no W once completion has been reported and every other thread is quiet; every executed command statement invokes its handler exactly once with (7, true); wait n never completes at a virtual time below n seconds after it started; R: a pending (gated) command abandoned by RestoreAt and the same command statement executed again - the second execution must wait for its own handler; plus a free-running -race pass over the same shapes; " +
 				"a case is one complete schedule; non-trivial = schedule with at least one poll answered by ErrWaitingForCommandCompletion",
 			StatesMean:  "distinct complete schedules (executions) of the rewritten code; transitions = scheduling points granted",
 			Assumptions: []string{"sequentially consistent executions at the granularity of the hooked operations; unsynchronised accesses between hooks are the subject of the separate -race pass", "unbuffered channels are modelled as a rendezvous between a parked sender and the polling select", "the rewriting rules are syntactic and local (cmd/vrewrite); the rewritten package is the code that runs"},
@@ -440,6 +440,159 @@ func runC10(ctx *report.Ctx) {
 				sched = append(sched, e.String())
 			}
 			ctx.Sample(map[string]any{"handlers": cfg.describe(), "results": results, "schedule": strings.Join(sched, " ")})
+		}
+	})
+	// R: a pending command abandoned by RestoreAt, then the same command statement executed again: the second
+	// execution must wait for its own handler (no result of the abandoned execution may be taken for it)
+	rShapes := []struct {
+		name  string
+		fails bool
+	}{{"converted-no-result", false}, {"converted-error-nil", false}, {"converted-error-err", true}, {"raw-later", false}}
+	part(ctx, "R", -1, func(c *explore.Chooser) {
+		sh := rShapes[c.Choose(len(rShapes), "shape")]
+		openFirstEarly := c.Choose(2, "open-gate-of-abandoned-execution") == 0
+		if !c.Mine() {
+			return
+		}
+		desc := fmt.Sprintf("%s, restored while pending, gate of the abandoned execution opened %s", sh.name, map[bool]string{true: "before the second execution", false: "after the second execution started"}[openFirstEarly])
+		ctx.Current("R: " + desc)
+		var results []string
+		clause, detail := "", ""
+		ex := vsched.Run(vsched.Options{Choose: c.Choose, PreemptionBound: report.Pick(ctx, 3, 4)}, func() {
+			script := "title: A\n---\n<<set $k = 0>>\nL0\n<<c1 7 true>>\n<<set $k += 1>>\nL1 {$k}\n===\n"
+			dr, err := ysgo.NewDialogueRunner(nil, "abc", strings.NewReader(script))
+			if err != nil {
+				clause, detail = "harness", err.Error()
+				return
+			}
+			gates := []chan struct{}{make(chan struct{}, 1), make(chan struct{}, 1), make(chan struct{}, 1)}
+			invoked := 0
+			started := make(chan int, 4)
+			body := func() error {
+				invoked++
+				n := invoked
+				vsched.Send(started, n) // tells the host that this execution's handler is running
+				if n < len(gates) {
+					vsched.Recv(gates[n])
+				}
+				if sh.fails {
+					return errC10
+				}
+				return nil
+			}
+			switch sh.name {
+			case "converted-no-result":
+				dr.ConvertAndAddCommand("c1", func(i int, b bool) { body() })
+			case "raw-later":
+				dr.AddCommand("c1", func(args []*variable.Value) <-chan error {
+					ch := make(chan error, 1)
+					vsched.Go(func() { vsched.Send(ch, body()) })
+					return ch
+				})
+			default:
+				dr.ConvertAndAddCommand("c1", func(i int, b bool) error { return body() })
+			}
+			next := func() string {
+				vsched.Point("between-polls")
+				vsched.EnterAPI()
+				el, err := dr.Next(0)
+				vsched.LeaveAPI()
+				r := "?"
+				switch {
+				case errors.Is(err, ysgo.ErrWaitingForCommandCompletion):
+					r = "W"
+				case err != nil:
+					r = "E"
+				case el == nil:
+					r = "end"
+				case el.Line != nil:
+					r = el.Line.Text
+				}
+				results = append(results, r)
+				return r
+			}
+			snap := dr.Snapshot()
+			if r := next(); r != "L0" {
+				clause, detail = "trace", "expected L0, got "+r
+				return
+			}
+			if r := next(); r != "W" {
+				clause, detail = "trace", "the gated command must be pending, got "+r
+				return
+			}
+			vsched.Recv(started) // the handler of the first execution is running (and waits for gate 1)
+			if err := dr.RestoreAt(snap); err != nil {
+				clause, detail = "harness", "RestoreAt failed: "+err.Error()
+				return
+			}
+			results = append(results, "restore")
+			if openFirstEarly {
+				vsched.Send(gates[1], struct{}{})
+				results = append(results, "open-gate-1")
+			}
+			if r := next(); r != "L0" {
+				clause, detail = "trace", "after the restore expected L0 again, got "+r
+				return
+			}
+			r := next() // the second execution of the command starts here; its handler waits for gate 2
+			if r == "W" {
+				vsched.Recv(started) // the handler of the second execution is running
+			}
+			if !openFirstEarly {
+				vsched.Send(gates[1], struct{}{})
+				results = append(results, "open-gate-1")
+			}
+			for polls := 0; ; polls++ {
+				if r != "W" {
+					clause, detail = "resumed-early", fmt.Sprintf("the second execution of the command was reported complete (%s) while its own handler was still waiting: the result of the abandoned execution was taken for it", r)
+					return
+				}
+				if polls == 2 {
+					break
+				}
+				r = next()
+			}
+			vsched.Send(gates[2], struct{}{})
+			results = append(results, "open-gate-2")
+			sawE := false
+			for i := 0; i < 5; i++ {
+				r = next()
+				switch {
+				case r == "W":
+				case r == "E" && sh.fails && !sawE:
+					sawE = true
+				case r == "L1 1":
+					if sh.fails && !sawE {
+						clause, detail = "error-not-surfaced", "the error of the second execution was never returned"
+					} else if invoked != 2 {
+						clause, detail = "handler-not-invoked-once", fmt.Sprintf("two executions of the command statement, %d invocations of the handler", invoked)
+					}
+					return
+				default:
+					clause, detail = "trace", "unexpected result "+r
+					return
+				}
+			}
+		})
+		ctx.AddEvals(1, 1)
+		ctx.AddStates(1)
+		ctx.AddTransitions(int64(ex.Points))
+		ctx.AddTraces(1)
+		ctx.Outcome("R " + desc + " => " + strings.Join(results, " ") + " " + ex.Outcome)
+		if clause == "harness" {
+			ctx.HarnessError("C10 R: %s", detail)
+			return
+		}
+		if clause == "" && ex.Outcome != "" {
+			if ex.Outcome == "api-blocks" {
+				clause, detail = "next-blocks", "Next did not return (host inside Next, no thread can run)"
+			} else if strings.HasPrefix(ex.Outcome, "panic") {
+				clause, detail = "panic", ex.Outcome
+			}
+		}
+		if clause != "" {
+			ctx.Violation(report.Violation{Clause: clause, Witness: "R: " + desc + " :: results " + strings.Join(results, " "), Detail: detail, Choices: c.Choices(), Part: "R",
+				Extra: map[string]any{"results": results}})
 		}
 	})
 	_ = yc.OEnd
